@@ -87,7 +87,7 @@ PROPS = {
              "redirect, rewritten_url, CSP set) compared with O-scan (each parsed rule matched alone + documented precedence); "
              "non-trivial = O-scan found >= 1 matching rule in any category; distinct = hash of (L, T, url, source, type). "
              "Also hosts-format lists, H4 index invariants after construction, and (thorough) the /repo/data corpus engine "
-             "vs linear scan over the recorded requests.",
+             "vs linear scan over the recorded requests. Every list without $badfilter is also added rule by rule to a live Blocker (add_filter) that is judged by the same reference, and every request is also put through check_network_request_subset under the other three flag combinations (O-scan models the documented flag semantics).",
         assumptions=["per-rule matching (NetworkFilter::matches) is trusted here and judged separately by C02/C03",
                      "badfilter cancellation in the oracle uses the crate's own id functions (judged by C04)",
                      "no 64-bit seahash collision among the strings of one case"],
@@ -117,8 +117,9 @@ PROPS = {
              "neighbours: engines (optimised 3 in 4) of 2-3 plain or /regex/ rules sharing their index token with different type/party/"
              "important/match-case options; the verdict for each rule's URL (both letter cases) must be the OR of the per-rule references. "
              "Further rule kinds cover `$removeparam` (implied types document/subdocument/xhr, observed through the rewrite), `$csp` "
-             "(documents only, observed through the csp query) and `$redirect` (observed through matched + redirect); 8 initiators incl. one "
-             "whose host is a mere textual suffix of the request host; every single-rule engine is asked again after a serialization round trip.",
+             "(documents only, observed through the csp query) and `$redirect` (observed through matched + redirect); 9 initiators incl. one "
+             "whose host is a mere textual suffix of the request host and one five labels below its site; siblings: 2-3 rules with the same pattern whose "
+             "domain= lists differ (optimised engine vs OR of the references); requests with opaque or scheme-less URLs straight into Request::preparsed; every single-rule engine is asked again after a serialization round trip.",
         assumptions=["an absent/unparseable initiator cannot satisfy an inclusion list and vacuously satisfies an exclusion-only list (ABP)",
                      "exceptions apply to document requests without $document (uBO-style, as documented in the code)",
                      "`|ws://` covers both websocket schemes here; the ws-vs-wss distinction is judged (and recorded) under C02"],
